@@ -226,5 +226,28 @@ def main():
     return code
 
 
+def _main_keeping_generated():
+    """A run against a scratch worktree (VERIF_REPO != /repo) regenerates
+    lean/BreezyVerif/Generated/Cxx.lean from that tree; put the /repo version
+    back afterwards so the committed project keeps describing /repo."""
+    alt = os.path.realpath(os.environ.get("VERIF_REPO", "/repo")) != "/repo"
+    saved = {}
+    if alt:
+        gd = os.path.join(VERIF, "lean", "BreezyVerif", "Generated")
+        for f in os.listdir(gd) if os.path.isdir(gd) else []:
+            pid = next((x for x in sys.argv[1:] if x[:1] == "C" and x[1:3].isdigit()), "")
+            if f.endswith(".lean") and pid and f.startswith(pid):
+                saved[os.path.join(gd, f)] = open(os.path.join(gd, f)).read()
+    try:
+        return main()
+    finally:
+        for f, txt in saved.items():
+            try:
+                if open(f).read() != txt:
+                    open(f, "w").write(txt)
+            except OSError:
+                pass
+
+
 if __name__ == "__main__":
-    sys.exit(main())
+    sys.exit(_main_keeping_generated())
